@@ -22,7 +22,7 @@ func TestMain(m *testing.M) {
 			"ExpireTx of an outstanding or unknown transaction, Session Report Response matching / wrong sequence number / from the wrong peer / duplicated. "+
 			"Oracle: reference model of outstanding requests keyed by (peer, wire sequence number): each request seen at an SMF socket has a 24-bit sequence number different from every other outstanding one to that peer; "+
 			"each expiry of an outstanding request yields exactly one byte-identical retransmission until MaxRetrans is reached, then none and the entry disappears; a matching response from the right peer removes the entry and later expiries do nothing; "+
-			"non-matching responses change nothing; at the end the transmit-transaction table is empty. Transactions are addressed by the key the server lists for the request whose cached bytes equal the datagram received. "+
+			"non-matching responses change nothing; a request from the peer carrying the sequence number of a request outstanding to it (receive transactions are keyed the same way, in their own table) is answered, and neither it nor the end of its retention window touches the outstanding request; at the end the transmit-transaction table is empty. Transactions are addressed by the key the server lists for the request whose cached bytes equal the datagram received. "+
 			"non-trivial = the counter crossed 2^24 (or 2^32) with a request outstanding on each side of the boundary, or a request was retired by a response after >= 1 retry; distinct by (config, history)",
 		"in the model-based histories timer expiry is injected through the public NotifyTransTimeout entry point; the counter is positioned by an in-package hook of the scratch build. "+
 			"Part (b) uses real timers (30 / 60 ms, MaxRetrans 0..3): 1-5 requests outstanding, the event loop parked inside a data-plane call of an unrelated Establishment for 20-250 % of the timeout, responses for a drawn subset sent meanwhile, loop released - "+
@@ -32,7 +32,7 @@ func TestMain(m *testing.M) {
 }
 
 type Ev struct {
-	Kind    string `json:"kind"` // report dldr expire expire_unknown rsp
+	Kind    string `json:"kind"` // report dldr expire expire_unknown rsp peerreq
 	Sess    int    `json:"sess,omitempty"`
 	Which   int    `json:"which,omitempty"`   // index into the model's list of outstanding requests (mod len)
 	Variant string `json:"variant,omitempty"` // rsp: match wrongseq wrongpeer
@@ -57,6 +57,8 @@ type stats struct {
 	crossWithBoth                bool
 	retiredAfterRetry            bool
 	reports, expiries, responses int
+	peerReqs                     int
+	peerReqExpired               bool
 }
 
 func run(c Case) (v *vcore.Violation, stt stats) {
@@ -212,6 +214,67 @@ func run(c Case) (v *vcore.Violation, stt stats) {
 				}
 				x.retired = true
 			}
+		case "peerreq":
+			// the peer's own request with the sequence number of a request outstanding to it: receive transactions are kept
+			// under the same "<address>-<sequence number>" form of key, in a table of their own.  Receiving it, and (variant
+			// "expire") the end of its retention window, must leave the outstanding request alone.
+			l := live()
+			if len(l) == 0 {
+				continue
+			}
+			x := l[ev.Which%len(l)]
+			retained := false
+			for _, e := range st.Srv.VerifRxTable() {
+				if e.Addr == st.Sock(x.sock).Addr.String() && e.Seq == x.seq {
+					retained = true // an earlier request of the peer with this number is still retained: this one would be its retransmission
+				}
+			}
+			if retained {
+				continue
+			}
+			stt.peerReqs++
+			hb, err := r.Build(stack.Op{Kind: "hb", Peer: x.sock, Sess: -1}, x.seq)
+			if err != nil {
+				panic(err)
+			}
+			tb := st.Srv.VerifTxTable()
+			o := r.SendRaw(x.sock, hb)
+			if o.Dead != nil {
+				return vcore.Violatef(o.Dead.Key, "event %d: UPF fatal exit: %.400s", i, o.Dead.Msg), stt
+			}
+			if len(o.Rx[x.sock]) != 1 || len(o.Rx) != 1 {
+				return vcore.Violatef("peer-request-answer", "event %d: Heartbeat Request from sock %d with sequence %d (a request of the UPF's with that number is outstanding) got %d datagram(s)", i, x.sock, x.seq, len(o.Rx[x.sock])), stt
+			}
+			if m, perr := message.Parse(o.Rx[x.sock][0].B); perr != nil || m.MessageType() != message.MsgTypeHeartbeatResponse || m.Sequence() != x.seq {
+				return vcore.Violatef("peer-request-answer", "event %d: Heartbeat Request seq %d answered with %x", i, x.seq, o.Rx[x.sock][0].B), stt
+			}
+			r.Pending[x.sock] = nil
+			if !reflect.DeepEqual(tb, st.Srv.VerifTxTable()) {
+				return vcore.Violatef("peer-request-effect", "event %d: a request from the peer with sequence number %d changed the transmit table", i, x.seq), stt
+			}
+			if ev.Variant == "expire" {
+				id := ""
+				for rid, e := range st.Srv.VerifRxTable() {
+					if e.Addr == st.Sock(x.sock).Addr.String() && e.Seq == x.seq {
+						id = rid
+					}
+				}
+				if id == "" {
+					return vcore.Violatef("no-bookkeeping", "event %d: the peer's request seq %d left no receive transaction", i, x.seq), stt
+				}
+				o := r.Step(stack.Op{Kind: "expire_rx", TrID: id})
+				if o.Dead != nil {
+					return vcore.Violatef(o.Dead.Key, "event %d: UPF fatal exit: %.400s", i, o.Dead.Msg), stt
+				}
+				if len(o.Rx) != 0 {
+					return vcore.Violatef("expire-side-effect", "event %d: end of a retention window caused datagrams", i), stt
+				}
+				if _, ok := txKey(x); !ok {
+					return vcore.Violatef("lost-bookkeeping", "event %d: the retention window of the peer's request (sock %d, sequence %d) ended and took the UPF's outstanding request with the same sequence number with it: it will neither be retransmitted nor matched with its response",
+						i, x.sock, x.seq), stt
+				}
+				stt.peerReqExpired = true
+			}
 		case "expire_unknown":
 			stt.expiries++
 			tb := st.Srv.VerifTxTable()
@@ -351,6 +414,12 @@ func account(c Case, s stats) {
 	if s.retiredAfterRetry {
 		vcore.E.Class("retired_by_response_after_retry")
 	}
+	if s.peerReqs > 0 {
+		vcore.E.Class("peer_request_with_the_sequence_number_of_an_outstanding_request")
+	}
+	if s.peerReqExpired {
+		vcore.E.Class("its_retention_window_ended_while_the_request_was_outstanding")
+	}
 	if s.crossWithBoth || s.retiredAfterRetry {
 		vcore.E.NonTrivial(vcore.JSON(c))
 		kind := "retired-after-retry"
@@ -417,8 +486,11 @@ func TestC09(t *testing.T) {
 		}
 		n := rapid.IntRange(1, 25).Draw(rt, "n")
 		for i := 0; i < n; i++ {
-			k := rapid.SampledFrom([]string{"report", "report", "report", "dldr", "expire", "expire", "expire", "expire_unknown", "rsp", "rsp"}).Draw(rt, "kind")
+			k := rapid.SampledFrom([]string{"report", "report", "report", "dldr", "expire", "expire", "expire", "expire_unknown", "rsp", "rsp", "peerreq"}).Draw(rt, "kind")
 			ev := Ev{Kind: k, Sess: rapid.IntRange(0, 2).Draw(rt, "sess"), Which: rapid.IntRange(0, 7).Draw(rt, "which")}
+			if k == "peerreq" && rapid.Bool().Draw(rt, "expire") {
+				ev.Variant = "expire"
+			}
 			if k == "rsp" {
 				ev.Variant = rapid.SampledFrom([]string{"match", "match", "wrongseq", "wrongpeer"}).Draw(rt, "variant")
 			}
